@@ -1,6 +1,7 @@
 package main
 
 import (
+	"crypto/md5"
 	"fmt"
 	"strings"
 
@@ -258,6 +259,43 @@ func (u c19Uni) alphabet() []c19Op {
 	return al
 }
 
+// c19Witnesses: logs that must stay in the stream whatever the seed.
+func c19Witnesses(u c19Uni) [][]c19Op {
+	G, P := u.rules["g"], u.rules["p"]
+	g := func(is ...int) [][]string {
+		var out [][]string
+		for _, i := range is {
+			out = append(out, G[i])
+		}
+		return out
+	}
+	p := func(is ...int) [][]string {
+		var out [][]string
+		for _, i := range is {
+			out = append(out, P[i])
+		}
+		return out
+	}
+	return [][]c19Op{
+		// F02 (repaired by bd8551d): a grouping rule added, ClearPolicySelf: the link must be gone on
+		// every replica ...
+		{{Kind: "add", Pt: "g", R1: g(0)}, {Kind: "clear"}, {Kind: "add", Pt: "g", R1: g(2)}},
+		// ... and so must the g() results memoised in the compiled matcher: after the clear only the
+		// p rules come back, a request that needed the link must now be denied
+		{{Kind: "add", Pt: "g", R1: g(0, 2)}, {Kind: "add", Pt: "p", R1: p(0, 1, 2)}, {Kind: "clear"}, {Kind: "add", Pt: "p", R1: p(0, 1, 2)},
+			{Kind: "add", Pt: "g", R1: g(2)}, {Kind: "clear"}, {Kind: "clear"}},
+		// a replayed log: every entry twice
+		{{Kind: "add", Pt: "g", R1: g(0, 1, 0)}, {Kind: "add", Pt: "g", R1: g(0, 1, 0)},
+			{Kind: "update", Pt: "g", R1: g(0), R2: g(3)}, {Kind: "update", Pt: "g", R1: g(0), R2: g(3)},
+			{Kind: "updatemany", Pt: "g", R1: g(1, 3), R2: g(2, 0)}, {Kind: "updatemany", Pt: "g", R1: g(1, 3), R2: g(2, 0)},
+			{Kind: "remove", Pt: "g", R1: g(2, 2, 1)}, {Kind: "remove", Pt: "g", R1: g(2, 2, 1)},
+			{Kind: "removefiltered", Pt: "g", Fi: 0, Fvs: []string{G[0][0]}}, {Kind: "removefiltered", Pt: "g", Fi: 0, Fvs: []string{G[0][0]}}},
+		// a batch update refused half-way (second old rule not listed) is rolled back on every replica
+		{{Kind: "add", Pt: "p", R1: p(0)}, {Kind: "updatemany", Pt: "p", R1: p(0, 1), R2: p(2, 3)}, {Kind: "updatemany", Pt: "p", R1: p(0, 1), R2: p(2, 3)},
+			{Kind: "add", Pt: "p", R1: p(1)}, {Kind: "updatemany", Pt: "p", R1: p(0, 1), R2: p(2, 3)}, {Kind: "updatemany", Pt: "p", R1: p(0, 1), R2: p(2, 3)}},
+	}
+}
+
 // c19Guard: the call is inside the guards of the theorems, given the rules listed now.
 //   update:     the old rule is not listed (no-op) or the new rule is not listed, and old != new (F08)
 //   updatemany: equal non-zero lengths; the first old rule is not listed (immediate no-op) or the
@@ -316,9 +354,10 @@ func c19First(rules [][]string, keep func(r []string) bool) [][]string {
 
 // c19Run applies the log to len(steps[0].Bits) fresh replicas, observing from step `from` on.
 // agree: the replicas must agree with each other (no injected failure, no UpdateFiltered).
-func c19Run(c *Ctx, id string, u c19Uni, steps []c19Step, from int, agree bool) {
+// digest: one line per (step, replica) carrying the MD5 of all its observables (thorough tier).
+func c19Run(c *Ctx, id string, u c19Uni, steps []c19Step, from int, agree bool, digest bool) (nontrivial bool) {
 	nrep := len(steps[0].Bits)
-	c.Case(id, fmt.Sprintf("%s (from %d) (ops %s)", u.header(), from, c19LogSx(steps)))
+	c.Case(id, fmt.Sprintf("%s (from %d) (digest %s) (ops %s)", u.header(), from, B(digest), c19LogSx(steps)))
 	reps := make([]*c19Replica, nrep)
 	for i := range reps {
 		reps[i] = c19NewReplica(u.conf)
@@ -356,16 +395,25 @@ func c19Run(c *Ctx, id string, u c19Uni, steps []c19Step, from int, agree bool) 
 			res := r.apply(o, st.Bits[i])
 			adlog := strings.Join(r.A.Log[l0:], " ; ")
 			after := snap{r.M.listedKey(), u.links(r), u.decisions(r)}
+			if after.listed != before[i].listed || (strings.HasPrefix(res, "aff=[")) || strings.HasPrefix(res, "flag=1") {
+				nontrivial = true
+			}
 			if k >= from {
 				pre := fmt.Sprintf("%d.%d.", k, i)
-				c.Obs(id, pre+"res", res)
-				c.Obs(id, pre+"adlog", adlog)
-				c.Obs(id, pre+"adcontent", r.A.contentKey())
-				c.Obs(id, pre+"listed", after.listed)
-				for j, l := range u.linkObs {
-					c.Obs(id, pre+"links."+l[0], after.links[j])
+				if digest {
+					all := []string{res, adlog, r.A.contentKey(), after.listed}
+					all = append(append(all, after.links...), after.dec)
+					c.Obs(id, pre+"all", fmt.Sprintf("%x", md5.Sum([]byte(strings.Join(all, "\n")))))
+				} else {
+					c.Obs(id, pre+"res", res)
+					c.Obs(id, pre+"adlog", adlog)
+					c.Obs(id, pre+"adcontent", r.A.contentKey())
+					c.Obs(id, pre+"listed", after.listed)
+					for j, l := range u.linkObs {
+						c.Obs(id, pre+"links."+l[0], after.links[j])
+					}
+					c.Obs(id, pre+"dec", after.dec)
 				}
-				c.Obs(id, pre+"dec", after.dec)
 			}
 			if o.Kind == "failnext" {
 				continue
@@ -419,6 +467,7 @@ func c19Run(c *Ctx, id string, u c19Uni, steps []c19Step, from int, agree bool) 
 			}
 		}
 	}
+	return nontrivial
 }
 
 // ---------- generators ----------
@@ -525,8 +574,21 @@ func c19RandomLog(c *Ctx, u c19Uni, maxLen int, nrep int, withFiltered bool, wit
 
 func init() {
 	register("C19", func(c *Ctx) {
-		c.Rule = "three real DistributedEnforcer replicas (persist always / never / seeded coin) over recording set-semantics adapters apply the same log of *Self calls. (1) exhaustive: every log of length <= 3 (thorough: 4 on the RBAC model) over an alphabet of 25 (RBAC: p, p2, g, g2) / 23 (domain model) calls with repeated and overlapping batches on a 4-rule universe per type, observed after its last call; (2) seeded random logs of <= 12 calls (random batches with repetition, replayed entries, empty batches, unknown type), observed after every call; (3) single persisting replica with injected adapter failures; (4) single persisting replica with UpdateFilteredPoliciesSelf. Logs stay inside the guards (F08: update targets not listed). Distinct = (model, log); non-trivial = the log contains a call that changes memory or reports a non-empty result."
+		c.Rule = "three real DistributedEnforcer replicas (persist always / never / seeded coin) over recording set-semantics adapters apply the same log of *Self calls. (0) fixed witnesses (F02 links and memoised g() results after ClearPolicySelf, a fully replayed log, a refused batch update); (1) exhaustive: every log of length <= 3 (thorough: 4 on the RBAC model) over an alphabet of 25 (RBAC: p, p2, g, g2) / 23 (domain model) calls with repeated and overlapping batches on a 4-rule universe per type, observed after its last call; (2) seeded random logs of <= 12 calls (random batches with repetition, replayed entries, empty batches, unknown type), observed after every call; (3) single persisting replica with injected adapter failures; (4) single persisting replica with UpdateFilteredPoliciesSelf. Logs stay inside the guards (F08: update targets not listed). Distinct = (model, log); non-trivial = the log contains a call that changes memory or reports a non-empty result."
 		unis := []c19Uni{c19RBAC(), c19Domain()}
+		// (0) fixed witnesses, observed after every call on the three replicas
+		for ui, u := range unis {
+			for wi, w := range c19Witnesses(u) {
+				steps := make([]c19Step, len(w))
+				for k, o := range w {
+					steps[k] = c19Step{o, []bool{true, false, (k+wi)%2 == 0}}
+				}
+				id := fmt.Sprintf("c19.w%d.%d", ui, wi)
+				if c19Run(c, id, u, steps, 0, true, false) {
+					c.NonTrivial(id)
+				}
+			}
+		}
 		// (1) exhaustive
 		for ui, u := range unis {
 			al := u.alphabet()
@@ -556,8 +618,9 @@ func init() {
 					for _, ai := range path {
 						id += fmt.Sprintf(".%d", ai)
 					}
-					c19Run(c, id, u, steps, len(path)-1, true)
-					c.NonTrivial(id)
+					if c19Run(c, id, u, steps, len(path)-1, true, len(path) >= 4) {
+						c.NonTrivial(id)
+					}
 				}
 				if len(path) < depth {
 					for ai := range al {
@@ -576,8 +639,9 @@ func init() {
 			u := unis[i%2]
 			steps := c19RandomLog(c, u, 12, 3, false, false)
 			id := fmt.Sprintf("c19.r%d", i)
-			c19Run(c, id, u, steps, 0, true)
-			c.NonTrivial(id)
+			if c19Run(c, id, u, steps, 0, true, i >= 400) {
+				c.NonTrivial(id)
+			}
 		}
 		// (3) injected adapter failures, one replica with a mostly-true predicate
 		nfail := 150
@@ -588,8 +652,9 @@ func init() {
 			u := unis[i%2]
 			steps := c19RandomLog(c, u, 10, 1, false, true)
 			id := fmt.Sprintf("c19.f%d", i)
-			c19Run(c, id, u, steps, 0, false)
-			c.NonTrivial(id)
+			if c19Run(c, id, u, steps, 0, false, i >= 400) {
+				c.NonTrivial(id)
+			}
 		}
 		// (4) UpdateFilteredPoliciesSelf on a persisting replica
 		nuf := 150
@@ -600,8 +665,9 @@ func init() {
 			u := unis[i%2]
 			steps := c19RandomLog(c, u, 10, 1, true, false)
 			id := fmt.Sprintf("c19.u%d", i)
-			c19Run(c, id, u, steps, 0, false)
-			c.NonTrivial(id)
+			if c19Run(c, id, u, steps, 0, false, i >= 400) {
+				c.NonTrivial(id)
+			}
 		}
 		c.Exhaust = false
 		c19Probes(c)
